@@ -20,7 +20,7 @@ import DsdVerif.DriverSingleton
 import DsdVerif.DriverUnits
 import DsdVerif.DriverSetObjects
 import DsdVerif.DriverDomain
-import DsdVerif.DriverLegacy
+import DsdVerif.DriverLegacyReg
 import DsdVerif.Model.Dlc
 
 namespace Dsd.Driver
@@ -588,7 +588,7 @@ def stepR (s : RState) (line : String) : RState × String :=
 structure DState where
   r : RState := {}
   py : List (Nat × Gen.ComplexS.Self) := []        -- handle ↦ the object as the translated methods left it
-  lg : DriverLegacy.LegacyDState := {}             -- the translated legacy objects (Gen/PyLegacy.lean)
+  lr : DriverLegacyReg.LegacyRegDState := {}       -- the translated legacy objects and class registry (Gen/PyLegacy.lean, Gen/PyLegacyReg.lean)
   dom : DriverDomain.DomainDState := {}            -- the class state of the translated DomainS request (Gen/PyDomain.lean); ops prefixed `pydom.`
 
 /-- the translated object of a handle: as it was left, or (first use) as `__init__` leaves it for the model's description -/
@@ -645,8 +645,8 @@ def stepD (d : DState) (line : String) : DState × String :=
         (fun _ => ((DriverSingleton.stepSingleton line).orElse (fun _ => DriverUnits.stepUnits line)).orElse (fun _ => DriverSetObjects.stepSetObjects line)) with
     | some out => (d, out)
     | none =>
-      match DriverLegacy.stepLegacy d.lg line with
-      | some (lg', out) => ({ d with lg := lg' }, out)
+      match DriverLegacyReg.stepLegacyReg d.lr line with
+      | some (lr', out) => ({ d with lr := lr' }, out)
       | none => let (r', out) := stepR d.r line; ({ d with r := r' }, out)
 
 end Dsd.Driver
